@@ -310,6 +310,18 @@ def run_case(case, rec, mon=None):
             rec.count("bank_construction_raised")
             mon.v("constructing the %s bank raised %r for a valid configuration" % (cfg["name"], e), check="construct", cls=cfg["name"], cfg=cfg)
             bank = None
+        if bank is not None and case["idx"] % 7 == 2:
+            # the bank as a worker process / a copied computer sees it: a deep copy, a pickle round trip, a shallow copy.  The copy
+            # is a bank of the same configuration and is held to the same documented layout and normalisation
+            from ..common import copied, COPY_WAYS
+
+            way = COPY_WAYS[(case["idx"] // 7) % 3]
+            try:
+                bank = copied(bank, way)
+                rec.count("banks_probed_through_a_%s" % way)
+            except Exception as e:
+                mon.v("copying (%s) a %s bank raised %r" % (way, cfg["name"], e), check="copy_raise", cls=cfg["name"], cfg=cfg)
+                bank = None
         if bank is not None:
             nf = bank.num_filts
             for i in sorted({0, nf - 1, int(rng.integers(nf))}):
